@@ -23,13 +23,47 @@
 (* LoopBegin, LoopIter, LoopEnd, Exit, Swap, Clear, MergeExtend.           *)
 (*                                                                         *)
 (* Values: integers (signed words; unsigned as signed twins) and strings.  *)
-(* Records/ADTs, auto-increment, user-defined functors, floats and         *)
-(* provenance are outside this module (vf/ramjson.py marks such programs   *)
-(* unsupported and they are not given to it).                              *)
+(*                                                                         *)
+(* RECORDS AND ADTS.  As in the real engine a record value is an integer:  *)
+(* a reference into a RECORD TABLE (souffle/datastructure/RecordTableImpl.h)*)
+(* which is part of the machine state (variable rtab).  rtab.t is a        *)
+(* sequence of entries [k |-> key, t |-> tuple]; reference r > 0 denotes   *)
+(* rtab.t[r].t, reference 0 is nil.  PACK looks the tuple up and appends   *)
+(* it when it is new (hash-consing: equal tuples get equal references,     *)
+(* different tuples different ones); UNPACK reads the entry and skips its   *)
+(* body when the reference is 0 (Engine.cpp CASE(UnpackRecord)).           *)
+(* The real table has one map per arity; here one sequence serves all      *)
+(* arities, which renames references injectively - no well-typed program   *)
+(* can observe the difference, and an UNPACK whose arity differs from the  *)
+(* entry's is recorded in rtab.bad (invariant RecordsOK).  TLC cannot       *)
+(* compare a string with an integer, and tuples of one arity may hold      *)
+(* either at a position ([1,"a"] and [1,2]), so the look-up compares the   *)
+(* keys k = ToString(tuple) (injective on tuples of integers and strings). *)
+(* Because PACK occurs inside expressions (also in conditions and index    *)
+(* bounds: `(PACK(t0.0,"z"),_) IN r0`), evaluation THREADS the table:      *)
+(* EvalE returns <<value, table'>>, EvalC <<truth, table'>>, Exec a result *)
+(* with field T; sub-evaluations happen left to right, each one starting   *)
+(* from the table the previous one returned.  The order in which records   *)
+(* get their references is unobservable: relations are compared by         *)
+(* cardinality (trace) and BY VALUE (FinalIsModel): an output IO decodes   *)
+(* every tuple through the table (Dec, a transcription of WriteStream.h    *)
+(* outputRecord/outputADT) into the value form of spec/Datalog.tla         *)
+(* (<<"nil">>, <<"rec", v..>>, <<"adt", branch, v..>>), an input IO packs   *)
+(* the EDB values (Enc, a transcription of ReadStream.h readRecord/readADT).*)
+(* ADT encoding (ast2ram ValueTranslator.cpp visit_(BranchInit)): branch   *)
+(* id = index in the list of branches sorted by name; an enum-only ADT is  *)
+(* the plain number id; otherwise [id, arg] for a branch with one argument *)
+(* and [id, [args..]] for 0 or >= 2 arguments.  The type table             *)
+(* RamProg.types is the one the REAL IO statements carry in their `types`  *)
+(* directive (records: name |-> field types; adts: name |-> [enum,         *)
+(* branches |-> <<[name, types]>> in id order]).                           *)
+(* Auto-increment, user-defined functors, floats and provenance are        *)
+(* outside this module (vf/ramjson.py marks such programs unsupported and  *)
+(* they are not given to it).                                              *)
 (***************************************************************************)
 EXTENDS Integers, Sequences, FiniteSets, TLC, Functors, Json, RamData
-\* RamData defines: RamProg  == [relations, main, subroutines]
-\*                  RamEDBs  == << [rel |-> <<tuples>>] ... >>      input facts per behaviour
+\* RamData defines: RamProg  == [relations, main, subroutines, types]
+\*                  RamEDBs  == << [rel |-> <<tuples>>] ... >>      input facts per behaviour (Datalog.tla value form)
 \*                  RamClearPolicy == "interp" | "compiled";  RamStored == <<relations written by an output IO>>
 \*                  RamExpect == << [have |-> BOOLEAN, m |-> [rel |-> <<tuples>>]] ... >>  Model(P, EDB) from spec/Datalog.tla
 
@@ -47,56 +81,133 @@ EqCloseR(T) ==      \* reflexive-symmetric-transitive closure (eqrel storage)
         Fix(X) == IF step(X) = X THEN X ELSE Fix(step(X))
     IN Fix(sym)
 
-\* ---- results of evaluating an operation tree -----------------------------
-\* R(D, brk, oob, att): D the database after the operation, brk "leave the enclosing scan",
-\* oob "evaluation left the defined value domain", att number of INSERT executions
-Res(D, brk, oob, att) == [D |-> D, brk |-> brk, oob |-> oob, att |-> att]
+\* ---- the record table ------------------------------------------------------
+\* T is the sequence rtab.t.  Pack(T, t) = <<reference of tuple t, table'>>  (RecordTableImpl.h pack: findOrInsert)
+RKey(t) == ToString(t)
+Pack(T, t) == LET key == RKey(t)
+                  f == {i \in 1..Len(T) : T[i].k = key}
+              IN IF f # {} THEN <<CHOOSE i \in f : TRUE, T>> ELSE <<Len(T) + 1, Append(T, [k |-> key, t |-> t])>>
+ValidRef(x, n, T) == x \in 1..Len(T) /\ Len(T[x].t) = n         \* a reference an UNPACK of arity n may read
 
-\* ---- expressions: <<v>> or <<>> (undefined) ------------------------------
-RECURSIVE EvalE(_, _, _, _)
-EvalE(e, env, D, V) ==
-    CASE e.k \in {"Signed", "Unsigned", "String"} -> <<e.v>>
-      [] e.k = "TupleElement" -> <<env[e.id][e.col + 1]>>
-      [] e.k = "Variable" -> <<V[e.name]>>
-      [] e.k = "RelationSize" -> <<Cardinality(D[e.rel])>>
-      [] e.k = "Intrinsic" ->
-            LET as == [i \in 1..Len(e.args) |-> EvalE(e.args[i], env, D, V)] IN
-            IF \E i \in 1..Len(e.args) : as[i] = <<>> THEN <<>>
-            ELSE Apply(e.op, [i \in 1..Len(e.args) |-> as[i][1]])
+\* ---- column types ----------------------------------------------------------
+\* an attribute type is "i", "u", "s", or the qualifier of a record ("r:Name") or ADT ("+:Name") of the type table
+RTypes == RamProg.types
+IsRecT(ty) == ty \in DOMAIN RTypes.records
+IsAdtT(ty) == ty \in DOMAIN RTypes.adts
+
+\* Dec(x, ty, T): the RAM value x of type ty as a value of spec/Datalog.tla (WriteStream.h outputRecord / outputADT);
+\* <<"bad">> stands for a dangling reference or a branch id outside the type (never part of a model)
+RECURSIVE Dec(_, _, _)
+Dec(x, ty, T) ==
+    IF IsRecT(ty) THEN
+        LET fts == RTypes.records[ty] IN
+        IF x = 0 THEN <<"nil">>
+        ELSE IF ~ValidRef(x, Len(fts), T) THEN <<"bad">>
+        ELSE <<"rec">> \o [i \in 1..Len(fts) |-> Dec(T[x].t[i], fts[i], T)]
+    ELSE IF IsAdtT(ty) THEN
+        LET info == RTypes.adts[ty]  nb == Len(info.branches) IN
+        IF info.enum THEN (IF x \in 0..(nb - 1) THEN <<"adt", info.branches[x + 1].name>> ELSE <<"bad">>)
+        ELSE IF ~ValidRef(x, 2, T) THEN <<"bad">>
+        ELSE IF T[x].t[1] \notin 0..(nb - 1) THEN <<"bad">>
+        ELSE LET b == info.branches[T[x].t[1] + 1]  n == Len(b.types)  p == T[x].t[2] IN
+             IF n > 1 /\ ~ValidRef(p, n, T) THEN <<"bad">>
+             ELSE LET args == IF n > 1 THEN T[p].t ELSE <<p>> IN          \* [id, [args]] or [id, arg]
+                  <<"adt", b.name>> \o [i \in 1..n |-> Dec(args[i], b.types[i], T)]
+    ELSE x
+DecTuple(t, tys, T) == [i \in 1..Len(t) |-> Dec(t[i], tys[i], T)]
+
+\* Enc(v, ty, T) = <<RAM value, table'>>: the Datalog.tla value v of type ty packed (ReadStream.h readRecord / readADT)
+RECURSIVE Enc(_, _, _), EncVals(_, _, _, _, _)
+EncVals(vs, tys, i, acc, T) ==
+    IF i > Len(vs) THEN <<acc, T>>
+    ELSE LET r == Enc(vs[i], tys[i], T) IN EncVals(vs, tys, i + 1, Append(acc, r[1]), r[2])
+Enc(v, ty, T) ==
+    IF IsRecT(ty) THEN
+        IF v = <<"nil">> THEN <<0, T>>
+        ELSE LET r == EncVals(Tail(v), RTypes.records[ty], 1, <<>>, T) IN Pack(r[2], r[1])
+    ELSE IF IsAdtT(ty) THEN
+        LET info == RTypes.adts[ty]
+            bi == CHOOSE j \in 1..Len(info.branches) : info.branches[j].name = v[2]
+            fts == info.branches[bi].types
+        IN IF info.enum THEN <<bi - 1, T>>
+           ELSE LET r == EncVals(SubSeq(v, 3, Len(v)), fts, 1, <<>>, T)
+                    p == IF Len(fts) # 1 THEN Pack(r[2], r[1]) ELSE <<r[1][1], r[2]>>
+                IN Pack(p[2], <<bi - 1, p[1]>>)
+    ELSE <<v, T>>
+RECURSIVE EncTuples(_, _, _, _, _)
+EncTuples(ts, tys, i, acc, T) ==          \* the sequence ts of EDB tuples: <<set of RAM tuples, table'>>
+    IF i > Len(ts) THEN <<acc, T>>
+    ELSE LET r == EncVals(ts[i], tys, 1, <<>>, T) IN EncTuples(ts, tys, i + 1, acc \cup {r[1]}, r[2])
+
+\* ---- results of evaluating an operation tree -----------------------------
+\* Res(D, T, brk, oob, att, bad): D the database and T the record table after the operation, brk "leave the enclosing
+\* scan", oob "evaluation left the defined value domain", att number of INSERT executions, bad "an UNPACK met a
+\* reference that is not a record of its arity"
+Res(D, T, brk, oob, att, bad) == [D |-> D, T |-> T, brk |-> brk, oob |-> oob, att |-> att, bad |-> bad]
+Skip(D, T) == Res(D, T, FALSE, FALSE, 0, FALSE)
+Undefd(D, T) == Res(D, T, FALSE, TRUE, 0, FALSE)
 
 IsUndef(e) == e.k = "Undef"
 
-\* ---- conditions: "T", "F" or "U" (undefined) -----------------------------
-Tri(b) == IF b THEN "T" ELSE "F"
-RECURSIVE EvalC(_, _, _, _)
-EvalC(c, env, D, V) ==
-    CASE c.k = "True" -> "T"
-      [] c.k = "False" -> "F"
-      [] c.k = "Conjunction" ->
-            LET l == EvalC(c.l, env, D, V) IN
-            IF l = "F" THEN "F" ELSE IF l = "U" THEN "U" ELSE EvalC(c.r, env, D, V)
-      [] c.k = "Negation" ->
-            LET x == EvalC(c.c, env, D, V) IN IF x = "U" THEN "U" ELSE Tri(x = "F")
-      [] c.k = "Constraint" ->
-            LET l == EvalE(c.l, env, D, V)  r == EvalE(c.r, env, D, V) IN
-            IF l = <<>> \/ r = <<>> THEN "U" ELSE Tri(Cmp(c.op, l[1], r[1]))
-      [] c.k = "EmptinessCheck" -> Tri(D[c.rel] = {})
-      [] c.k = "ExistenceCheck" ->
-            LET n == Len(c.vals)
-                vs == [i \in 1..n |-> IF IsUndef(c.vals[i]) THEN <<"*">> ELSE EvalE(c.vals[i], env, D, V)]
-            IN IF \E i \in 1..n : vs[i] = <<>> THEN "U"
-               ELSE Tri(\E t \in D[c.rel] : \A i \in 1..n : IsUndef(c.vals[i]) \/ t[i] = vs[i][1])
+\* ---- expressions: <<>> (undefined) or <<value, table'>> --------------------
+RECURSIVE EvalE(_, _, _, _, _), EvalEs(_, _, _, _, _, _, _)
+\* the expressions es from the i-th on, left to right: <<>> or <<values, table'>>
+EvalEs(es, i, acc, env, D, V, T) ==
+    IF i > Len(es) THEN <<acc, T>>
+    ELSE LET r == EvalE(es[i], env, D, V, T) IN
+         IF r = <<>> THEN <<>> ELSE EvalEs(es, i + 1, Append(acc, r[1]), env, D, V, r[2])
+EvalE(e, env, D, V, T) ==
+    CASE e.k \in {"Signed", "Unsigned", "String"} -> <<e.v, T>>
+      [] e.k = "TupleElement" -> <<env[e.id][e.col + 1], T>>
+      [] e.k = "Variable" -> <<V[e.name], T>>
+      [] e.k = "RelationSize" -> <<Cardinality(D[e.rel]), T>>
+      [] e.k = "Intrinsic" ->
+            LET as == EvalEs(e.args, 1, <<>>, env, D, V, T) IN
+            IF as = <<>> THEN <<>>
+            ELSE LET r == Apply(e.op, as[1]) IN IF r = <<>> THEN <<>> ELSE <<r[1], as[2]>>
+      [] e.k = "PackRecord" ->
+            LET as == EvalEs(e.args, 1, <<>>, env, D, V, T) IN
+            IF as = <<>> THEN <<>> ELSE Pack(as[2], as[1])
 
-\* ---- index range patterns -------------------------------------------------
+\* ---- index range patterns / value patterns ---------------------------------
 \* a bound is [d |-> defined?, v |-> <<value>> or <<>> when its evaluation is undefined]; UNDEF = unbounded
-Bounds(es, env, D, V) == [i \in 1..Len(es) |-> IF IsUndef(es[i]) THEN [d |-> FALSE, v |-> <<0>>]
-                                                 ELSE [d |-> TRUE, v |-> EvalE(es[i], env, D, V)]]
+\* Bounds(es, ..) = <<sequence of bounds, table'>>
+RECURSIVE BoundsF(_, _, _, _, _, _, _)
+BoundsF(es, i, acc, env, D, V, T) ==
+    IF i > Len(es) THEN <<acc, T>>
+    ELSE IF IsUndef(es[i]) THEN BoundsF(es, i + 1, Append(acc, [d |-> FALSE, v |-> <<0>>]), env, D, V, T)
+    ELSE LET r == EvalE(es[i], env, D, V, T) IN
+         IF r = <<>> THEN BoundsF(es, i + 1, Append(acc, [d |-> TRUE, v |-> <<>>]), env, D, V, T)
+         ELSE BoundsF(es, i + 1, Append(acc, [d |-> TRUE, v |-> <<r[1]>>]), env, D, V, r[2])
+Bounds(es, env, D, V, T) == BoundsF(es, 1, <<>>, env, D, V, T)
 BoundsUndefined(b) == \E i \in 1..Len(b) : b[i].v = <<>>
 InRange(rel, t, lo, hi) ==
     \A i \in 1..Len(lo) :
         IF lo[i].d /\ hi[i].d /\ lo[i].v = hi[i].v THEN t[i] = lo[i].v[1]          \* equality (any type)
         ELSE /\ lo[i].d => (IF ColIsUnsigned(rel, i) THEN ULe(lo[i].v[1], t[i]) ELSE lo[i].v[1] <= t[i])
              /\ hi[i].d => (IF ColIsUnsigned(rel, i) THEN ULe(t[i], hi[i].v[1]) ELSE t[i] <= hi[i].v[1])
+
+\* ---- conditions: <<"T" | "F" | "U" (undefined), table'>> -------------------
+Tri(b) == IF b THEN "T" ELSE "F"
+RECURSIVE EvalC(_, _, _, _, _)
+EvalC(c, env, D, V, T) ==
+    CASE c.k = "True" -> <<"T", T>>
+      [] c.k = "False" -> <<"F", T>>
+      [] c.k = "Conjunction" ->
+            LET a == EvalC(c.l, env, D, V, T) IN
+            IF a[1] # "T" THEN a ELSE EvalC(c.r, env, D, V, a[2])
+      [] c.k = "Negation" ->
+            LET a == EvalC(c.c, env, D, V, T) IN IF a[1] = "U" THEN a ELSE <<Tri(a[1] = "F"), a[2]>>
+      [] c.k = "Constraint" ->
+            LET a == EvalE(c.l, env, D, V, T) IN
+            IF a = <<>> THEN <<"U", T>>
+            ELSE LET b == EvalE(c.r, env, D, V, a[2]) IN
+                 IF b = <<>> THEN <<"U", a[2]>> ELSE <<Tri(Cmp(c.op, a[1], b[1])), b[2]>>
+      [] c.k = "EmptinessCheck" -> <<Tri(D[c.rel] = {}), T>>
+      [] c.k = "ExistenceCheck" ->
+            LET b == Bounds(c.vals, env, D, V, T) IN
+            IF BoundsUndefined(b[1]) THEN <<"U", b[2]>>
+            ELSE <<Tri(\E t \in D[c.rel] : \A i \in 1..Len(c.vals) : (~b[1][i].d) \/ t[i] = b[1][i].v[1]), b[2]>>
 
 RangeValsR(a) ==   \* evaluator::runRange
     LET from == a[1]  to == a[2]
@@ -107,9 +218,9 @@ RangeValsR(a) ==   \* evaluator::runRange
 
 \* Scan order.  RamOrders (RamData) is a sequence of value sequences; behaviour number V["@ord"] scans every relation
 \* in the lexicographic order induced by ranking values by their position in RamOrders[V["@ord"]] (values not listed
-\* rank after the listed ones, in natural order; integer-only relations).  The empty sequence <<>> stands for TLC's own
-\* fixed enumeration order.  Results of programs without choice-domain must not depend on the order (C03); for
-\* choice-domain every order must give an admissible result (C10).
+\* rank after the listed ones, in natural order; integer-only relations - record references are integers).  The empty
+\* sequence <<>> stands for TLC's own fixed enumeration order.  Results of programs without choice-domain must not
+\* depend on the order (C03); for choice-domain every order must give an admissible result (C10).
 RankOf(o, v) == IF \E i \in 1..Len(o) : o[i] = v THEN CHOOSE i \in 1..Len(o) : o[i] = v ELSE 1000000 + v
 RECURSIVE KeyLess(_, _, _, _)
 KeyLess(o, t, u, i) == IF i > Len(t) THEN FALSE
@@ -123,86 +234,111 @@ SetToSeq(X, V) == IF RamOrders[V["@ord"]] = <<>> THEN ChooseSeq(X) ELSE SortBy(R
 
 InsertT(D, rel, t) == [D EXCEPT ![rel] = IF IsEqrel(rel) THEN EqCloseR(@ \cup {t}) ELSE @ \cup {t}]
 
-\* ---- operations -----------------------------------------------------------
-RECURSIVE Exec(_, _, _, _), ScanOver(_, _, _, _, _, _)
-\* iterate the body over the tuples ts (a sequence) bound to tuple id
-ScanOver(ts, i, op, env, D, V) ==
-    IF i > Len(ts) THEN Res(D, FALSE, FALSE, 0)
-    ELSE LET r == Exec(op.body, env @@ (op.id :> ts[i]), D, V) IN
-         IF r.brk \/ r.oob THEN Res(r.D, FALSE, r.oob, r.att)          \* Break leaves this scan only
-         ELSE LET s == ScanOver(ts, i + 1, op, env, r.D, V) IN Res(s.D, FALSE, s.oob, r.att + s.att)
-
 EnvSet(env, id, t) == [x \in (DOMAIN env) \cup {id} |-> IF x = id THEN t ELSE env[x]]
 
-Exec(op, env, D, V) ==
+\* condition c / expression e for every tuple of the sequence ts bound to tuple id, one after the other (the table is
+\* threaded): <<sequence of truth values, table'>> / <<sequence of <<value>> or <<>>, table'>>
+RECURSIVE CondSeq(_, _, _, _, _, _, _, _, _), ExprSeq(_, _, _, _, _, _, _, _, _)
+CondSeq(ts, i, acc, c, id, env, D, V, T) ==
+    IF i > Len(ts) THEN <<acc, T>>
+    ELSE LET r == EvalC(c, EnvSet(env, id, ts[i]), D, V, T) IN CondSeq(ts, i + 1, Append(acc, r[1]), c, id, env, D, V, r[2])
+ExprSeq(ts, i, acc, e, id, env, D, V, T) ==
+    IF i > Len(ts) THEN <<acc, T>>
+    ELSE LET r == EvalE(e, EnvSet(env, id, ts[i]), D, V, T) IN
+         IF r = <<>> THEN ExprSeq(ts, i + 1, Append(acc, <<>>), e, id, env, D, V, T)
+         ELSE ExprSeq(ts, i + 1, Append(acc, <<r[1]>>), e, id, env, D, V, r[2])
+
+\* ---- operations -----------------------------------------------------------
+RECURSIVE Exec(_, _, _, _, _), ScanOver(_, _, _, _, _, _, _)
+\* iterate the body over the tuples ts (a sequence) bound to tuple id
+ScanOver(ts, i, op, env, D, V, T) ==
+    IF i > Len(ts) THEN Skip(D, T)
+    ELSE LET r == Exec(op.body, env @@ (op.id :> ts[i]), D, V, T) IN
+         IF r.brk \/ r.oob THEN Res(r.D, r.T, FALSE, r.oob, r.att, r.bad)          \* Break leaves this scan only
+         ELSE LET s == ScanOver(ts, i + 1, op, env, r.D, V, r.T) IN Res(s.D, s.T, FALSE, s.oob, r.att + s.att, r.bad \/ s.bad)
+
+Exec(op, env, D, V, T) ==
     CASE op.k = "Scan" ->
-            ScanOver(SetToSeq(D[op.rel], V), 1, op, [x \in (DOMAIN env) \ {op.id} |-> env[x]], D, V)
+            ScanOver(SetToSeq(D[op.rel], V), 1, op, [x \in (DOMAIN env) \ {op.id} |-> env[x]], D, V, T)
       [] op.k = "IndexScan" ->
-            LET lo == Bounds(op.lo, env, D, V)  hi == Bounds(op.hi, env, D, V) IN
-            IF BoundsUndefined(lo) \/ BoundsUndefined(hi) THEN Res(D, FALSE, TRUE, 0)
-            ELSE ScanOver(SetToSeq({t \in D[op.rel] : InRange(op.rel, t, lo, hi)}, V), 1, op,
-                          [x \in (DOMAIN env) \ {op.id} |-> env[x]], D, V)
+            LET lo == Bounds(op.lo, env, D, V, T)  hi == Bounds(op.hi, env, D, V, lo[2]) IN
+            IF BoundsUndefined(lo[1]) \/ BoundsUndefined(hi[1]) THEN Undefd(D, T)
+            ELSE ScanOver(SetToSeq({t \in D[op.rel] : InRange(op.rel, t, lo[1], hi[1])}, V), 1, op,
+                          [x \in (DOMAIN env) \ {op.id} |-> env[x]], D, V, hi[2])
       [] op.k \in {"IfExists", "IndexIfExists"} ->
-            LET lo == IF op.k = "IndexIfExists" THEN Bounds(op.lo, env, D, V) ELSE <<>>
-                hi == IF op.k = "IndexIfExists" THEN Bounds(op.hi, env, D, V) ELSE <<>>
-                cand == IF op.k = "IndexIfExists" THEN {t \in D[op.rel] : InRange(op.rel, t, lo, hi)} ELSE D[op.rel]
-                cs == [t \in cand |-> EvalC(op.cond, EnvSet(env, op.id, t), D, V)]
-                wit == {t \in cand : cs[t] = "T"}
-            IN IF BoundsUndefined(lo) \/ BoundsUndefined(hi) \/ (\E t \in cand : cs[t] = "U") THEN Res(D, FALSE, TRUE, 0)
-               ELSE IF wit = {} THEN Res(D, FALSE, FALSE, 0)
-               ELSE LET r == Exec(op.body, EnvSet(env, op.id, SetToSeq(wit, V)[1]), D, V)
-                    IN Res(r.D, FALSE, r.oob, r.att)
+            LET idx == op.k = "IndexIfExists"
+                lo == IF idx THEN Bounds(op.lo, env, D, V, T) ELSE <<<<>>, T>>
+                hi == IF idx THEN Bounds(op.hi, env, D, V, lo[2]) ELSE <<<<>>, T>>
+                cand == IF idx THEN {t \in D[op.rel] : InRange(op.rel, t, lo[1], hi[1])} ELSE D[op.rel]
+                cseq == ChooseSeq(cand)
+                cs == CondSeq(cseq, 1, <<>>, op.cond, op.id, env, D, V, hi[2])
+                wit == {cseq[j] : j \in {m \in 1..Len(cseq) : cs[1][m] = "T"}}
+            IN IF BoundsUndefined(lo[1]) \/ BoundsUndefined(hi[1]) THEN Undefd(D, T)
+               ELSE IF \E j \in 1..Len(cseq) : cs[1][j] = "U" THEN Undefd(D, cs[2])
+               ELSE IF wit = {} THEN Skip(D, cs[2])
+               ELSE LET r == Exec(op.body, EnvSet(env, op.id, SetToSeq(wit, V)[1]), D, V, cs[2])
+                    IN Res(r.D, r.T, FALSE, r.oob, r.att, r.bad)
       [] op.k \in {"Aggregate", "IndexAggregate"} ->
-            LET lo == IF op.k = "IndexAggregate" THEN Bounds(op.lo, env, D, V) ELSE <<>>
-                hi == IF op.k = "IndexAggregate" THEN Bounds(op.hi, env, D, V) ELSE <<>>
-                cand == IF op.k = "IndexAggregate" THEN {t \in D[op.rel] : InRange(op.rel, t, lo, hi)} ELSE D[op.rel]
-                cs == [t \in cand |-> EvalC(op.cond, EnvSet(env, op.id, t), D, V)]
-                sel == {t \in cand : cs[t] = "T"}
+            LET idx == op.k = "IndexAggregate"
+                lo == IF idx THEN Bounds(op.lo, env, D, V, T) ELSE <<<<>>, T>>
+                hi == IF idx THEN Bounds(op.hi, env, D, V, lo[2]) ELSE <<<<>>, T>>
+                cand == IF idx THEN {t \in D[op.rel] : InRange(op.rel, t, lo[1], hi[1])} ELSE D[op.rel]
+                cseq == ChooseSeq(cand)
+                cs == CondSeq(cseq, 1, <<>>, op.cond, op.id, env, D, V, hi[2])
+                RECURSIVE Pick(_)
+                Pick(j) == IF j > Len(cseq) THEN <<>> ELSE (IF cs[1][j] = "T" THEN <<cseq[j]>> ELSE <<>>) \o Pick(j + 1)
+                sel == Pick(1)                                      \* the selected tuples, a sequence
                 fn == op.agg
-                vals == [t \in sel |-> IF fn = "COUNT" THEN <<1>> ELSE EvalE(op.expr, EnvSet(env, op.id, t), D, V)]
-                bad == BoundsUndefined(lo) \/ BoundsUndefined(hi) \/ (\E t \in cand : cs[t] = "U")
-                          \/ (\E t \in sel : vals[t] = <<>>)
-                xs == {vals[t][1] : t \in sel}
-                RECURSIVE SumSeq(_, _, _)
-                SumSeq(s, i, acc) == IF i > Len(s) THEN <<acc>>
-                                     ELSE IF fn = "USUM" THEN SumSeq(s, i + 1, AddW(acc, vals[s[i]][1]))
-                                     ELSE IF ~AddOK(acc, vals[s[i]][1]) THEN <<>>
-                                     ELSE SumSeq(s, i + 1, acc + vals[s[i]][1])
-                sum == IF fn \in {"SUM", "USUM"} THEN SumSeq(ChooseSeq(sel), 1, 0) ELSE <<0>>
-                none == fn \in {"MIN", "MAX", "UMIN", "UMAX"} /\ sel = {}       \* min/max over nothing: body not run
-                aggv == CASE fn = "COUNT" -> Cardinality(sel)
+                vals == IF fn = "COUNT" THEN <<[j \in 1..Len(sel) |-> <<1>>], cs[2]>>
+                        ELSE ExprSeq(sel, 1, <<>>, op.expr, op.id, env, D, V, cs[2])
+                bad == (\E j \in 1..Len(cseq) : cs[1][j] = "U") \/ (\E j \in 1..Len(sel) : vals[1][j] = <<>>)
+                xs == {vals[1][j][1] : j \in 1..Len(sel)}
+                RECURSIVE SumSeq(_, _)
+                SumSeq(j, acc) == IF j > Len(sel) THEN <<acc>>
+                                  ELSE IF fn = "USUM" THEN SumSeq(j + 1, AddW(acc, vals[1][j][1]))
+                                  ELSE IF ~AddOK(acc, vals[1][j][1]) THEN <<>>
+                                  ELSE SumSeq(j + 1, acc + vals[1][j][1])
+                sum == IF fn \in {"SUM", "USUM"} THEN SumSeq(1, 0) ELSE <<0>>
+                none == fn \in {"MIN", "MAX", "UMIN", "UMAX"} /\ sel = <<>>       \* min/max over nothing: body not run
+                aggv == CASE fn = "COUNT" -> Len(sel)
                           [] fn \in {"SUM", "USUM"} -> IF sum = <<>> THEN 0 ELSE sum[1]
                           [] none -> 0
                           [] fn = "MIN" -> CHOOSE x \in xs : \A y \in xs : x <= y
                           [] fn = "MAX" -> CHOOSE x \in xs : \A y \in xs : x >= y
                           [] fn = "UMIN" -> CHOOSE x \in xs : \A y \in xs : ULe(x, y)
                           [] fn = "UMAX" -> CHOOSE x \in xs : \A y \in xs : ULe(y, x)
-            IN IF bad \/ sum = <<>> THEN Res(D, FALSE, TRUE, 0)
-               ELSE IF none THEN Res(D, FALSE, FALSE, 0)
-               ELSE LET r == Exec(op.body, EnvSet(env, op.id, <<aggv>>), D, V)
-                    IN Res(r.D, FALSE, r.oob, r.att)
+            IN IF BoundsUndefined(lo[1]) \/ BoundsUndefined(hi[1]) THEN Undefd(D, T)
+               ELSE IF bad \/ sum = <<>> THEN Undefd(D, vals[2])
+               ELSE IF none THEN Skip(D, vals[2])
+               ELSE LET r == Exec(op.body, EnvSet(env, op.id, <<aggv>>), D, V, vals[2])
+                    IN Res(r.D, r.T, FALSE, r.oob, r.att, r.bad)
       [] op.k = "NestedIntrinsic" ->
-            LET as == [i \in 1..Len(op.args) |-> EvalE(op.args[i], env, D, V)] IN
-            IF \E i \in 1..Len(op.args) : as[i] = <<>> THEN Res(D, FALSE, TRUE, 0)
-            ELSE LET xs == RangeValsR([i \in 1..Len(op.args) |-> as[i][1]])
-                 IN ScanOver(SetToSeq({<<x>> : x \in xs}, V), 1, op, [x \in (DOMAIN env) \ {op.id} |-> env[x]], D, V)
+            LET as == EvalEs(op.args, 1, <<>>, env, D, V, T) IN
+            IF as = <<>> THEN Undefd(D, T)
+            ELSE LET xs == RangeValsR(as[1])
+                 IN ScanOver(SetToSeq({<<x>> : x \in xs}, V), 1, op, [x \in (DOMAIN env) \ {op.id} |-> env[x]], D, V, as[2])
+      [] op.k = "UnpackRecord" ->          \* Engine.cpp CASE(UnpackRecord): nil skips the body (and does not break)
+            LET r == EvalE(op.expr, env, D, V, T) IN
+            IF r = <<>> THEN Undefd(D, T)
+            ELSE IF r[1] = 0 THEN Skip(D, r[2])
+            ELSE IF ~ValidRef(r[1], op.arity, r[2]) THEN Res(D, r[2], FALSE, FALSE, 0, TRUE)
+            ELSE Exec(op.body, EnvSet(env, op.id, r[2][r[1]].t), D, V, r[2])
       [] op.k = "Filter" ->
-            LET c == EvalC(op.cond, env, D, V) IN
-            IF c = "U" THEN Res(D, FALSE, TRUE, 0)
-            ELSE IF c = "F" THEN Res(D, FALSE, FALSE, 0) ELSE Exec(op.body, env, D, V)
+            LET c == EvalC(op.cond, env, D, V, T) IN
+            IF c[1] = "U" THEN Undefd(D, c[2])
+            ELSE IF c[1] = "F" THEN Skip(D, c[2]) ELSE Exec(op.body, env, D, V, c[2])
       [] op.k = "Break" ->
-            LET c == EvalC(op.cond, env, D, V) IN
-            IF c = "U" THEN Res(D, FALSE, TRUE, 0)
-            ELSE IF c = "T" THEN Res(D, TRUE, FALSE, 0) ELSE Exec(op.body, env, D, V)
+            LET c == EvalC(op.cond, env, D, V, T) IN
+            IF c[1] = "U" THEN Undefd(D, c[2])
+            ELSE IF c[1] = "T" THEN Res(D, c[2], TRUE, FALSE, 0, FALSE) ELSE Exec(op.body, env, D, V, c[2])
       [] op.k \in {"Insert", "GuardedInsert", "Erase"} ->
-            LET g == IF op.k = "GuardedInsert" THEN EvalC(op.cond, env, D, V) ELSE "T"
-                vs == [i \in 1..Len(op.vals) |-> EvalE(op.vals[i], env, D, V)]
-            IN IF g = "U" THEN Res(D, FALSE, TRUE, 0)
-               ELSE IF g = "F" THEN Res(D, FALSE, FALSE, 0)
-               ELSE IF \E i \in 1..Len(op.vals) : vs[i] = <<>> THEN Res(D, FALSE, TRUE, 0)
-               ELSE LET t == [i \in 1..Len(op.vals) |-> vs[i][1]] IN
-                    IF op.k = "Erase" THEN Res([D EXCEPT ![op.rel] = @ \ {t}], FALSE, FALSE, 0)
-                    ELSE Res(InsertT(D, op.rel, t), FALSE, FALSE, 1)
+            LET g == IF op.k = "GuardedInsert" THEN EvalC(op.cond, env, D, V, T) ELSE <<"T", T>>
+                vs == EvalEs(op.vals, 1, <<>>, env, D, V, g[2])
+            IN IF g[1] = "U" THEN Undefd(D, g[2])
+               ELSE IF g[1] = "F" THEN Skip(D, g[2])
+               ELSE IF vs = <<>> THEN Undefd(D, g[2])
+               ELSE IF op.k = "Erase" THEN Res([D EXCEPT ![op.rel] = @ \ {vs[1]}], vs[2], FALSE, FALSE, 0, FALSE)
+               ELSE Res(InsertT(D, op.rel, vs[1]), vs[2], FALSE, FALSE, 1, FALSE)
 
 \* MergeExtend (eqrel): EquivalenceRelation::extendAndInsert - src is extended by the classes of trg
 \* that it touches, and trg receives everything of src
@@ -213,8 +349,9 @@ MergeExtendDB(D, src, trg) ==
     IN [D EXCEPT ![src] = src2, ![trg] = trg2]
 
 \* ---- the state machine ----------------------------------------------------
-VARIABLES ei, db, stack, vars, outs, oob, last, glog
-rvars == <<ei, db, stack, vars, outs, oob, last, glog>>
+VARIABLES ei, db, stack, vars, outs, oob, last, glog, rtab
+rvars == <<ei, db, stack, vars, outs, oob, last, glog, rtab>>
+\* rtab = [t |-> the record table (sequence of [k, t]), bad |-> an UNPACK met a reference that is no record of its arity]
 \* glog (ghost, for C09): [iter |-> number of completed iterations of the running loop,
 \*                         att  |-> sequence of [line, iter, att] one per QUERY executed inside a loop,
 \*                         runs |-> sequence of [sid, n] one per finished loop: n = body executions]
@@ -244,6 +381,7 @@ Init == /\ ei \in 1..Len(RamEDBs)
         /\ oob = FALSE
         /\ last = [e |-> "Init", sid |-> -1, att |-> 0, taken |-> FALSE]
         /\ glog = [iter |-> 0, att |-> <<>>, runs |-> <<>>]
+        /\ rtab = [t |-> <<>>, bad |-> FALSE]
 
 InLoop == \E i \in 1..Len(stack) : stack[i].s.k = "Loop"
 Running == stack # <<>>
@@ -252,8 +390,9 @@ Done(st) == stack' = Norm(st)            \* continue after the current atomic st
 Ev(e, att, taken) == last' = [e |-> e, sid |-> S.sid, att |-> att, taken |-> taken]
 
 Query == /\ Running /\ S.k = "Query"
-         /\ LET r == Exec(S.op, [x \in {} |-> <<>>], db, vars) IN
+         /\ LET r == Exec(S.op, [x \in {} |-> <<>>], db, vars, rtab.t) IN
             /\ db' = r.D /\ oob' = (oob \/ r.oob) /\ Ev("Query", r.att, FALSE)
+            /\ rtab' = [t |-> r.T, bad |-> rtab.bad \/ r.bad]
             /\ glog' = IF InLoop /\ "line" \in DOMAIN S
                         THEN [glog EXCEPT !.att = Append(@, [line |-> S.line, iter |-> glog.iter, att |-> r.att])]
                         ELSE glog
@@ -262,26 +401,29 @@ Clear == /\ Running /\ S.k = "Clear"
          \* generated C++ (Synthesiser.cpp visit_ Clear) does not clear a stored (output) relation; the interpreter does
          /\ db' = IF RamClearPolicy = "compiled" /\ S.rel \in SeqSet(RamStored) THEN db ELSE [db EXCEPT ![S.rel] = {}]
          /\ Ev("Clear", 0, FALSE)
-         /\ Done(Pop(stack)) /\ UNCHANGED <<ei, vars, outs, oob, glog>>
+         /\ Done(Pop(stack)) /\ UNCHANGED <<ei, vars, outs, oob, glog, rtab>>
 Swap == /\ Running /\ S.k = "Swap"
         /\ db' = [db EXCEPT ![S.a] = db[S.b], ![S.b] = db[S.a]] /\ Ev("Swap", 0, FALSE)
-        /\ Done(Pop(stack)) /\ UNCHANGED <<ei, vars, outs, oob, glog>>
+        /\ Done(Pop(stack)) /\ UNCHANGED <<ei, vars, outs, oob, glog, rtab>>
 MergeExtend == /\ Running /\ S.k = "MergeExtend"
                /\ db' = MergeExtendDB(db, S.src, S.trg) /\ Ev("MergeExtend", 0, FALSE)
-               /\ Done(Pop(stack)) /\ UNCHANGED <<ei, vars, outs, oob, glog>>
+               /\ Done(Pop(stack)) /\ UNCHANGED <<ei, vars, outs, oob, glog, rtab>>
 IO == /\ Running /\ S.k = "IO"
-      /\ IF S.op = "input"
-           THEN /\ db' = [db EXCEPT ![S.rel] = LET T == @ \cup SeqSet(RamEDBs[ei][S.rel]) IN
-                                              IF IsEqrel(S.rel) THEN EqCloseR(T) ELSE T]
+      /\ IF S.op = "input"        \* the facts are packed (records, ADTs) as ReadStream does
+           THEN LET e == EncTuples(RamEDBs[ei][S.rel], RelInfoR(S.rel).attrTypes, 1, {}, rtab.t) IN
+                /\ db' = [db EXCEPT ![S.rel] = LET X == @ \cup e[1] IN IF IsEqrel(S.rel) THEN EqCloseR(X) ELSE X]
+                /\ rtab' = [rtab EXCEPT !.t = e[2]]
                 /\ UNCHANGED outs
-           ELSE /\ outs' = (S.rel :> db[S.rel]) @@ outs
-                /\ UNCHANGED db
+           \* the tuples are written BY VALUE: references are decoded through the table as WriteStream does
+           ELSE /\ outs' = (S.rel :> {DecTuple(t, RelInfoR(S.rel).attrTypes, rtab.t) : t \in db[S.rel]}) @@ outs
+                /\ UNCHANGED <<db, rtab>>
       /\ Ev("IO", 0, FALSE)
       /\ Done(Pop(stack)) /\ UNCHANGED <<ei, vars, oob, glog>>
 Assign == /\ Running /\ S.k = "Assign"
-          /\ LET v == EvalE(S.value, [x \in {} |-> <<>>], db, vars) IN
+          /\ LET v == EvalE(S.value, [x \in {} |-> <<>>], db, vars, rtab.t) IN
              /\ vars' = (S.var :> (IF v = <<>> THEN 0 ELSE v[1])) @@ vars
              /\ oob' = (oob \/ v = <<>>)
+             /\ rtab' = IF v = <<>> THEN rtab ELSE [rtab EXCEPT !.t = v[2]]
           /\ Ev("Assign", 0, FALSE)
           /\ Done(Pop(stack)) /\ UNCHANGED <<ei, db, outs, glog>>
 \* CALL: the frame stays (cursor 2 = "returning") while the subroutine body runs above it
@@ -291,50 +433,54 @@ CallBegin == /\ Running /\ S.k = "Call" /\ Top.i = 1
                          IN  LET n == Norm(st) IN
                              \* an empty subroutine returns at once: keep the call frame on top
                              IF Len(n) < Len(stack) THEN Pop(stack) \o <<[Top EXCEPT !.i = 2]>> ELSE n
-             /\ UNCHANGED <<ei, db, vars, outs, oob, glog>>
+             /\ UNCHANGED <<ei, db, vars, outs, oob, glog, rtab>>
 CallEnd == /\ Running /\ S.k = "Call" /\ Top.i = 2
            /\ Ev("CallEnd", 0, FALSE)
-           /\ Done(Pop(stack)) /\ UNCHANGED <<ei, db, vars, outs, oob, glog>>
+           /\ Done(Pop(stack)) /\ UNCHANGED <<ei, db, vars, outs, oob, glog, rtab>>
 \* LOOP: cursor 1 = not entered, 2 = body running above, the body frame is re-pushed by LoopIter
 LoopBegin == /\ Running /\ S.k = "Loop" /\ Top.i = 1
              /\ Ev("LoopBegin", 0, FALSE)
              /\ stack' = Norm(Append(Pop(stack) \o <<[Top EXCEPT !.i = 2]>>, Frame(S.body)))
              /\ glog' = [glog EXCEPT !.iter = 0]
-             /\ UNCHANGED <<ei, db, vars, outs, oob>>
+             /\ UNCHANGED <<ei, db, vars, outs, oob, rtab>>
 LoopIter == /\ Running /\ S.k = "Loop" /\ Top.i = 2          \* the body ran to its end: next iteration
             /\ Ev("LoopIter", 0, FALSE)
             /\ stack' = Norm(Append(stack, Frame(S.body)))
             /\ glog' = [glog EXCEPT !.iter = @ + 1]
-            /\ UNCHANGED <<ei, db, vars, outs, oob>>
+            /\ UNCHANGED <<ei, db, vars, outs, oob, rtab>>
 LoopEnd == /\ Running /\ S.k = "Loop" /\ Top.i = 3           \* an EXIT fired inside
            /\ Ev("LoopEnd", 0, FALSE)
            /\ glog' = [glog EXCEPT !.runs = Append(@, [sid |-> S.sid, n |-> glog.iter + 1]), !.iter = 0]
-           /\ Done(Pop(stack)) /\ UNCHANGED <<ei, db, vars, outs, oob>>
+           /\ Done(Pop(stack)) /\ UNCHANGED <<ei, db, vars, outs, oob, rtab>>
 \* EXIT: when the condition holds unwind to the innermost enclosing loop frame
 RECURSIVE Unwind(_)
 Unwind(st) == IF st = <<>> THEN st
               ELSE IF st[Len(st)].s.k = "Loop" THEN Pop(st) \o <<[st[Len(st)] EXCEPT !.i = 3]>>
               ELSE Unwind(Pop(st))
 Exit == /\ Running /\ S.k = "Exit"
-        /\ LET c == EvalC(S.cond, [x \in {} |-> <<>>], db, vars) IN
-           /\ oob' = (oob \/ c = "U")
-           /\ Ev("Exit", 0, c = "T")
-           /\ stack' = IF c = "T" THEN Unwind(Pop(stack)) ELSE Norm(Pop(stack))
+        /\ LET c == EvalC(S.cond, [x \in {} |-> <<>>], db, vars, rtab.t) IN
+           /\ oob' = (oob \/ c[1] = "U")
+           /\ Ev("Exit", 0, c[1] = "T")
+           /\ stack' = IF c[1] = "T" THEN Unwind(Pop(stack)) ELSE Norm(Pop(stack))
+           /\ rtab' = [rtab EXCEPT !.t = c[2]]
         /\ UNCHANGED <<ei, db, vars, outs, glog>>
 
 Next == \/ Query \/ Clear \/ Swap \/ MergeExtend \/ IO \/ Assign \/ CallBegin \/ CallEnd
         \/ LoopBegin \/ LoopIter \/ LoopEnd \/ Exit
 Spec == Init /\ [][Next]_rvars
-View == <<ei, db, stack, vars, outs, oob, glog>>
+View == <<ei, db, stack, vars, outs, oob, glog, rtab>>
 
 (***************************************************************************)
 (* Properties of the real RAM program (direction A)                        *)
 (***************************************************************************)
 Finished == stack = <<>>
-\* every output relation equals the declarative model computed by spec/Datalog.tla
+\* every output relation equals the declarative model computed by spec/Datalog.tla (outs holds VALUES: an output IO
+\* decodes record/ADT references through the record table into the value form of Datalog.tla)
 FinalIsModel ==
     (Finished /\ ~oob /\ RamExpect[ei].have) =>
         \A r \in DOMAIN RamExpect[ei].m : r \in DOMAIN outs /\ outs[r] = SeqSet(RamExpect[ei].m[r])
+\* every UNPACK read a record of its arity (rtab.bad is set by Exec otherwise)
+RecordsOK == ~rtab.bad
 \* semi-naive bookkeeping at every loop head: delta is part of the main relation, new is empty
 IsPrefix(p, s) == Len(s) >= Len(p) /\ SubSeq(s, 1, Len(p)) = p
 DeltaRels == {r \in RelNamesR : IsPrefix("@delta_", r)}
